@@ -48,6 +48,15 @@ def run(tier, build, replay=None):
     if replay and "ins" not in replay and "case" in replay:      # replay of a from-date violation: {"case": ..., "from": day}
         forced_from, replay = replay.get("from"), replay["case"]
     cases = [replay] if replay else l2.corpus_cases("C08") + gen_cases(rng, 3000 * _boost() if tier == "quick" else 40000)
+    if not replay:
+        # end-to-end twins (real .ini / .ods files through parse_ods, model command 31): a crypto fee of an acquisition is
+        # debited from the account by the artificial fee-only disposal the parser creates
+        rng_o = core.Rng(core.seed(), 88)
+        for c in list(cases):
+            if (hist.has_in_crypto_fee(c) or rng_o.chance(8)) and hist.ods_eligible(c):
+                t = hist.ods_case(c, rng_o)
+                if t is not None:
+                    cases.append(t)
     strict = core.pool_map(_impl_strict, cases, init=core.impl_env_setup)
     loose = core.pool_map(l2._impl_matcher, cases, init=core.impl_env_setup)
     # the verdict must not depend on a from-date: the replay covers all history, not only the window shown
@@ -61,8 +70,7 @@ def run(tier, build, replay=None):
     lines, idxs = [], []
     for k, (c, lo) in enumerate(zip(cases, loose)):
         if "ok" in lo:
-            fr = [(x["ev"], x["lot"], x["amt"]) for x in lo["ok"]["fractions"]]
-            lines.append(hist.line(30, l4.encode_input(c, fr, None, None, False)))
+            lines.append(l4.model_line(c, lo, None, None, False, strict[k]))
             idxs.append(k)
     raw = dict(zip(idxs, core.run_model(lines)))
     nontriv, mism = set(), 0
@@ -127,6 +135,7 @@ def run(tier, build, replay=None):
         "traces_validated_against_impl": len(idxs),
         "correspondence_mismatches": mism,
         "distribution": stats,
+        "end_to_end_stream": hist.ods_stats(cases),
     })
     out.assumptions = ["balances between -1e-10 and 0 are not constrained by the property (the code rejects below -5e-11)"]
     return out.finish(proofs, build)
